@@ -24,6 +24,37 @@ Definition u_recv_sync (a : val) : val :=
     end
   | _ => bad
   end.
+(* two consecutive exchanges on ONE connection: [stream; schedule] -> [first pdu | error; second pdu | error; octets left] *)
+Definition u_recv_sync2 (a : val) : val :=
+  match a with
+  | VL [VB s; VL sch] =>
+    match zs_of_vals sch with
+    | Some sc =>
+      match sync_recv_pdu {| stream := s; sched := sc |} with
+      | (Raise e, _) => VL [VE e; VN; VI (-1)]
+      | (Ok (p1, t1), _) =>
+        match sync_recv_pdu t1 with
+        | (Raise e, _) => VL [VB p1; VE e; VI (-1)]
+        | (Ok (p2, t2), _) => VL [VB p1; VB p2; VI (len (stream t2))]
+        end
+      end
+    | None => bad
+    end
+  | _ => bad
+  end.
+Definition u_recv_async2 (a : val) : val :=
+  match a with
+  | VL [VB s; VL _] =>
+    match async_recv_pdu s with
+    | Raise e => VL [VE e; VN; VI (-1)]
+    | Ok (p1, r1) =>
+      match async_recv_pdu r1 with
+      | Raise e => VL [VB p1; VE e; VI (-1)]
+      | Ok (p2, r2) => VL [VB p1; VB p2; VI (len r2)]
+      end
+    end
+  | _ => bad
+  end.
 Definition u_recv_async (a : val) : val :=
   match a with
   | VL [VB s; VL _] =>
@@ -152,7 +183,7 @@ Definition u_seal (a : val) : val :=
 
 Open Scope string_scope.
 Definition units : list (string * (val -> val)) :=
-  [ ("recv.sync", u_recv_sync); ("recv.async", u_recv_async);
+  [ ("recv.sync", u_recv_sync); ("recv.async", u_recv_async); ("recv.sync2", u_recv_sync2); ("recv.async2", u_recv_async2);
     ("handshake", u_handshake); ("bind_result", u_bind_result);
     ("framing", u_framing); ("strip", u_strip); ("seal", u_seal) ].
 
